@@ -3,6 +3,7 @@
 package main
 
 import (
+	"sort"
 	"bytes"
 	"encoding/binary"
 	"fmt"
@@ -66,6 +67,26 @@ func cifsHeader(f Val) []byte {
 		b = binary.LittleEndian.AppendUint16(b, uint16(f.L[i].Uint()))
 	}
 	return b
+}
+
+// msgModelled: the factory routes this message to a structure whose description the translator produced
+// (the model has nothing to say about the others)
+func msgModelled(m []byte) bool {
+	if len(m) < 32 {
+		return true
+	}
+	var c command_interface.CommandInterface
+	var err error
+	if m[9]&0x80 != 0 {
+		c, err = commands.CreateResponseCommand(codes.CommandCode(m[4]))
+	} else {
+		c, err = commands.CreateRequestCommand(codes.CommandCode(m[4]))
+	}
+	if err != nil || c == nil {
+		return true
+	}
+	d := smbDescs[reflect.TypeOf(c).Elem().Name()]
+	return d != nil && d.Translated
 }
 
 func msgMarshalN(hf Val, name string, cf Val, n int) Val {
@@ -135,6 +156,38 @@ func init() {
 			return VErr()
 		}
 		return L(hdrGet(m.Header), S(reflect.TypeOf(m.Command).Elem().Name()), cmdGet(m.Command))
+	})
+
+	// one Message value decodes a sequence of inputs: every result is what a fresh Message gives
+	Impl("msg.unmarshal_seq", func(a []Val) Val {
+		m := message.NewMessage()
+		var outs []Val
+		for _, in := range a[0].L {
+			if err := m.Unmarshal(exact(in.B)); err != nil {
+				outs = append(outs, VErr())
+				continue
+			}
+			outs = append(outs, L(hdrGet(m.Header), S(reflect.TypeOf(m.Command).Elem().Name()), cmdGet(m.Command)))
+		}
+		return L(outs...)
+	})
+	// decode, assign every field of the decoded command, encode twice
+	Impl("msg.reencode_with", func(a []Val) Val {
+		m := message.NewMessage()
+		if err := m.Unmarshal(exact(a[0].B)); err != nil {
+			return VErr()
+		}
+		cmdSet(m.Command, a[1])
+		var outs []Val
+		for i := 0; i < 2; i++ {
+			b, err := m.Marshal()
+			if err != nil {
+				outs = append(outs, VErr())
+				break
+			}
+			outs = append(outs, B(b))
+		}
+		return L(outs...)
 	})
 
 	Oracle("c03.header", func(a []Val) (string, string) {
@@ -270,6 +323,7 @@ func genC03(c *Ctx) {
 			c.Case("smb.dispatch", U(code), U(reply))
 		}
 	}
+	encs := map[string][]byte{}
 	for _, name := range smbNames {
 		d := smbDescs[name]
 		ct := smbFactories()[name]
@@ -291,9 +345,67 @@ func genC03(c *Ctx) {
 			if d != nil && d.Translated {
 				out := c.Case("msg.marshal", hf, S(name), fields, I(int64(1+r.Intn(3))))
 				if len(out.L) > 0 && out.L[0].K == 'x' && i < 3 {
-					c.Case("msg.unmarshal", B(out.L[0].B))
+					enc := out.L[0].B
+					c.Case("msg.unmarshal", B(enc))
+					// a received message edited and sent on: decode, assign new field values, encode twice
+					c.Case("msg.reencode_with", B(enc), genFieldsMode(r, name, 0))
+					if i == 0 {
+						encs[name] = enc
+					}
 				}
 			}
 		}
+	}
+	// one Message value reused for a sequence of decodes: the request and the response of one command in both
+	// orders, with complete, truncated (header intact, body cut) and foreign messages in between
+	var names []string
+	for n := range encs {
+		names = append(names, n)
+	}
+	sort.Strings(names)
+	pick := func() []byte { return encs[names[r.Intn(len(names))]] }
+	cut := func(b []byte) []byte {
+		if len(b) <= 33 {
+			return b[:32]
+		}
+		return b[:32+r.Intn(len(b)-32)]
+	}
+	for _, n := range names {
+		if !strings.HasSuffix(n, "Request") {
+			continue
+		}
+		req, ok1 := encs[n]
+		resp, ok2 := encs[strings.TrimSuffix(n, "Request")+"Response"]
+		if !ok1 || !ok2 {
+			continue
+		}
+		for _, seq := range [][][]byte{
+			{req, cut(resp), resp}, {resp, cut(req), req}, {req, resp[:32], resp}, {req, resp, req},
+			{req, cut(req), resp}, {pick(), req, cut(resp), pick(), resp},
+		} {
+			var vs []Val
+			for _, b := range seq {
+				vs = append(vs, B(b))
+			}
+			c.Case("msg.unmarshal_seq", L(vs...))
+		}
+	}
+	for i := 0; i < c.N(150, 3000) && len(names) > 0; i++ {
+		var vs []Val
+		for k := 2 + r.Intn(4); k > 0; k-- {
+			b := pick()
+			switch r.Intn(4) {
+			case 0:
+				b = cut(b)
+			case 1:
+				f := append([]byte{}, b...)
+				f[9] ^= 0x80 // the other direction of the same command code
+				if msgModelled(f) {
+					b = f
+				}
+			}
+			vs = append(vs, B(b))
+		}
+		c.Case("msg.unmarshal_seq", L(vs...))
 	}
 }
